@@ -108,7 +108,7 @@ def cmd_run(sid, props, tier):
             t0 = time.time()
             ev = os.path.join('/tmp/seedwt', f'ev-{sid}-{p}')
             rc, out = sh([os.path.join(VERIF, 'check'), p, '--tier', tier],
-                         cwd=VERIF, env={'VERIF_REPO': wt, 'VERIF_EVIDENCE_DIR': ev, 'VERIF_NO_SAVE': '1'}, timeout=7200)
+                         cwd=VERIF, env={'VERIF_REPO': wt, 'VERIF_EVIDENCE_DIR': ev, 'VERIF_NO_SAVE': '1'}, timeout=4 * 3600 + 600)
             shutil.rmtree(ev, ignore_errors=True)
             lines = [l for l in out.splitlines() if l.strip()]
             viol = [l for l in lines if l.startswith('VIOLATION')]
